@@ -20,6 +20,7 @@ RULE = ('Full BacktestTradingSession runs with the fixed-weight alpha model over
 RULE += ' Markets contain blank cells from the fourth row on (rows shuffled in the file); 15% of the sessions read two data sources (composite oracle: first source that has a value); 35% of adjusted single-source sessions pass no data handler and let the session build its own from $QSTRADER_CSV_DATA_DIR.'
 RULE += ' The equity curve is obtained once, reworked in place by the caller (rescaled, extra column, new index) and obtained again - the second answer is judged; the weights dict the caller gave the alpha model must be unchanged after the session.'
 RULE += ' Round 11: a quarter of the sessions are given the sizing keyword of the other mode as well (ignored by the library); 12% of the markets have one-session crashes / spikes (leveraged and short books can go below zero); zero-volume bars in every file.'
+RULE += ' Round 12: 12% of the fixed-weight sessions with two or more assets trade a duplicated series (the second file is a copy of the first) at equal weights.'
 ASSUMPTIONS = [
     'markets quote every asset over the whole session (data start before the session start)',
     'integer sizing decisions within 1e-9 of a rounding boundary adopt the implementation\'s value (counted as ambiguous_boundary)',
